@@ -88,3 +88,12 @@ Print Assumptions C07_tie_stream_reader_read_chunk.
 Theorem C07_tie_stream_reader_skip : Gen_Codec.stream_reader_skip = exp_stream_reader_skip.
 Proof. exact stream_reader_skip_tie. Qed.
 Print Assumptions C07_tie_stream_reader_skip.
+Theorem C07_tie_reader_methods : Gen_Codec.reader_methods = exp_reader_methods.
+Proof. exact reader_methods_tie. Qed.
+Print Assumptions C07_tie_reader_methods.
+Theorem C07_tie_stream_reader_methods : Gen_Codec.stream_reader_methods = exp_stream_reader_methods.
+Proof. exact stream_reader_methods_tie. Qed.
+Print Assumptions C07_tie_stream_reader_methods.
+Theorem C07_tie_reader_class_attrs : Gen_Codec.reader_class_attrs = [] /\ Gen_Codec.stream_reader_class_attrs = [].
+Proof. exact reader_class_attrs_tie. Qed.
+Print Assumptions C07_tie_reader_class_attrs.
